@@ -132,6 +132,11 @@ def mapBuild (entries : List MapEntry) : CInstr :=
 def setInstr (name : String) (global : Bool) : CInstr :=
   if global then .setGlobal name else .set name
 
+/-- `UnaryOperator::Not => Instruction::Not`, `UnaryOperator::Minus => Instruction::Negative` -/
+def unaryInstr : UnaryOperator → CInstr
+  | .Not => .not
+  | .Minus => .negative
+
 /-- `StoreLocal(key)` if the loop has a key variable -/
 def keyStore : Option String → Code
   | some k => [ns (.storeLocal k)]
@@ -198,7 +203,7 @@ def exprCode (base : Nat) (loop : Option Nat) : Expr → Code
   | .functionCall name kwargs =>
     kwargsCode base loop kwargs ++ [ns (.buildMap kwargs.length), sp (.callFunction name)]
   | .unary op e =>
-    exprCode base loop e ++ [sp (match op with | .Not => .not | .Minus => .negative)]
+    exprCode base loop e ++ [sp (unaryInstr op)]
   | .binary op l r =>
     match op with
     | .And | .Or =>
